@@ -208,6 +208,33 @@ def place_key(p):
     return (p["l"], proj_key(p["proj"]))
 
 
+def const_scalar(t):
+    """1, 0 or −1 when the scalar term is literally that constant (`T::one()`, `T::zero()`, `-T::one()`, a numeric literal,
+    `convert(1.0)`), else None"""
+    if t is None:
+        return None
+    if t[0] == "const" and len(t) >= 3:
+        try:
+            v = float(t[2])
+        except (TypeError, ValueError):
+            return None
+        return int(v) if v in (0.0, 1.0, -1.0) else None
+    if t[0] == "call" and len(t) >= 4:
+        nm = t[1].rsplit("::", 1)[-1]
+        if nm == "one" and not t[3]:
+            return 1
+        if nm == "zero" and not t[3]:
+            return 0
+        if t[1] == "std::ops::Neg::neg" and len(t[3]) == 1:
+            c = const_scalar(t[3][0])
+            return None if c is None else -c
+        if nm in ("convert", "from_f64", "from_subset", "from_real", "from", "into", "clone") and len(t[3]) == 1:
+            return const_scalar(t[3][0])
+    if t[0] == "ref" and len(t) >= 2:
+        return const_scalar(t[1])
+    return None
+
+
 class Eval:
     def __init__(self, facts, opaque=(), max_inline=MAX_INLINE):
         self.facts = facts
@@ -609,6 +636,52 @@ class Eval:
                 return ("call", "std::ops::Mul::mul", "nalgebra::Matrix", (ops[0], ops[1]), (body.key, cbi, env.path))
             if nm == "tr_mul_to" and ai == 2 and len(ops) == 3:
                 return ("call", "nalgebra::base::ops::tr_mul", "nalgebra::Matrix", (ops[0], ops[1]), (body.key, cbi, env.path))
+            # BLAS-style updates  y ← α·op(a)·op(b) + β·y  (nalgebra::base::blas): the pure expression, with the literal
+            # factors 1 / 0 / −1 folded so that `y.gemm(1, a, b, −1)` is the same term as `a * b − y`
+            site = (body.key, cbi, env.path)
+
+            def call(cid, *xs):
+                return ("call", cid, "nalgebra::Matrix", tuple(xs), site)
+
+            def lin(alpha, prod, beta):
+                ca, cb_ = const_scalar(alpha), const_scalar(beta)
+                if ca == 0:
+                    first = None
+                elif ca == 1:
+                    first = prod
+                elif ca == -1:
+                    first = call("std::ops::Neg::neg", prod)
+                else:
+                    first = call("std::ops::Mul::mul", prod, alpha)
+                if cb_ == 0:
+                    return first if first is not None else call("std::ops::Mul::mul", prod, alpha)
+                old = base if cb_ == 1 else (None if cb_ == -1 else call("std::ops::Mul::mul", base, beta))
+                if cb_ == -1:
+                    if first is None:
+                        return call("std::ops::Neg::neg", base)
+                    return call("std::ops::Sub::sub", first, base)
+                if first is None:
+                    return old
+                if ca == -1:
+                    return call("std::ops::Sub::sub", old, prod)
+                return call("std::ops::Add::add", old, first)
+            if ai == 0 and len(ops) == 5 and nm in ("gemm", "gemm_tr", "gemm_ad", "gemv", "gemv_tr", "gemv_ad"):
+                a_, b_ = ops[2], ops[3]
+                prod = call("std::ops::Mul::mul", a_, b_) if nm in ("gemm", "gemv") else call("nalgebra::base::ops::tr_mul", a_, b_)
+                return lin(ops[1], prod, ops[4])
+            if ai == 0 and len(ops) == 5 and nm in ("ger", "gerc"):
+                prod = call("std::ops::Mul::mul", ops[2], call("nalgebra::Matrix::transpose", ops[3]))
+                return lin(ops[1], prod, ops[4])
+            if ai == 0 and len(ops) == 4 and nm == "axpy":
+                return lin(ops[1], ops[2], ops[3])
+            if ai == 0 and len(ops) == 2 and nm in ("add_assign", "sub_assign"):
+                return call("std::ops::Add::add" if nm == "add_assign" else "std::ops::Sub::sub", base, ops[1])
+            if ai == 0 and len(ops) == 1 and nm == "neg_mut":
+                return call("std::ops::Neg::neg", base)
+            if ai == 0 and len(ops) == 2 and nm in ("scale_mut", "mul_assign"):
+                return call("std::ops::Mul::mul", base, ops[1])
+            if ai == 2 and len(ops) == 3 and nm in ("add_to", "sub_to"):
+                return call("std::ops::Add::add" if nm == "add_to" else "std::ops::Sub::sub", ops[0], ops[1])
             return None
         if cb is None or key in self.opaque or cb.kind == "Closure" or key in self._active:
             return None
@@ -714,6 +787,8 @@ class Eval:
         real = [a for a in alts if a[0] not in ("loopback",)]
         if len(real) == 2 and len(pred_vals) == 2 and env.pred_filter is None:
             folded = self._fold_enum_operator(env, b, pred_vals)
+            if folded is None:
+                folded = self._fold_bool_diamond(env, local, proj, b, pred_vals)
             if folded is not None:
                 real = [folded]
         if len(real) == 1:
@@ -730,6 +805,51 @@ class Eval:
         if not visiting:
             env.memo[mk] = v
         return v
+
+    def _fold_bool_diamond(self, env, local, proj, b, pred_vals):
+        """the value of a short-circuit `a && b` / `a || b` used as a value: a bool local assigned on the two arms of a
+        test of `a` (one arm a constant) is LAnd(a, b) / LOr(a, b) instead of an unconditioned merge"""
+        body = env.body
+        if proj or local >= len(body.locals) or body.locals[local].get("ty") != "bool":
+            return None
+        dom = body.dominators().get(b)
+        cands = [d for d in (dom or ()) if d != b]
+        if not cands:
+            return None
+        s_ = max(cands, key=lambda d: len(body.dominators()[d]))
+        term = body.blocks[s_]["term"]
+        if term["k"] != "switch" or len(term["targets"]) != 1 or term["targets"][0][0] != 0:
+            return None
+        arms = {False: term["targets"][0][1], True: term["otherwise"]}
+        vals = {}
+        for truth, tg in arms.items():
+            cur, steps, prev = tg, 0, s_
+            while cur != b and steps < 16:
+                nx = body.succ(cur)
+                if len(nx) != 1 or len(body.pred(cur)) != 1:
+                    return None
+                prev, cur = cur, nx[0]
+                steps += 1
+            if cur != b or prev not in pred_vals:
+                return None
+            vals[truth] = pred_vals[prev]
+        if len(vals) != 2 or set(pred_vals) != set(p for p in pred_vals if True) or len(pred_vals) != 2:
+            return None
+        try:
+            c = self.operand(env, term["op"], (s_, None))
+        except RecursionError:
+            return None
+        T, Fz = ("const", "bool", 1), ("const", "bool", 0)
+        vt, vf = vals[True], vals[False]
+        if vf == Fz:
+            return ("bin", "LAnd", c, vt)
+        if vt == T:
+            return ("bin", "LOr", c, vf)
+        if vt == Fz:
+            return ("bin", "LAnd", ("un", "Not", c), vf)
+        if vf == T:
+            return ("bin", "LOr", ("un", "Not", c), vt)
+        return None
 
     def _fold_enum_operator(self, env, b, pred_vals):
         """a `match` on an enum value W written out by hand whose arms compute exactly what a local operator
